@@ -148,13 +148,8 @@ func GetDocCommentOn(file *ast.File, obj types.Object) (cg *ast.CommentGroup, cl
 				}
 			}
 		case *ast.File:
-			if n.Doc != nil {
-				return n.Doc, func() {
-					if len(n.Doc.List) == 0 {
-						n.Doc = nil
-					}
-				}
-			}
+			// The package doc comment documents the package, not the object.
+			return nil, func() {}
 		}
 	}
 	return nil, func() {}
